@@ -69,8 +69,8 @@ META = {
         "x a 14-matrix sub-pool) of a pool of structured exact-rational matrices (identity, translations, scalings/"
         "reflections, 90-degree rotations, shears, singular) x 9 points x 5 rectangles, compared with an independent "
         "3x3 reference and the stated laws; index: BFS over add/remove/re-add histories of an 8-box pool (incl. a zero-width rule and a point on grid lines) on the real "
-        "Plane for 2 bounds x 3 grid sizes, canonical state = (_seq ids, _objs ids, sorted grid), in every state 81 "
-        "query boxes compared with brute force plus iter/len/in against a list model. non-trivial = algebra case with "
+        "Plane for 3 bounds (one with x0 != y0) x 3 grid sizes, canonical state = (_seq ids, _objs ids, sorted grid), in every state 100 "
+        "query boxes (one covering the whole plane) compared with brute force plus iter/len/in against a list model. non-trivial = algebra case with "
         "a non-identity, non-zero factor, or index state with at least one live object; states/transitions = BFS "
         "states/edges + algebra tuples; traces = histories replayed on a fresh Plane + algebra tuples compared."
     ),
@@ -183,9 +183,11 @@ BOXES = [
     ("V", 2.0, 0.5, 2.0, 2.5),  # zero-width rule lying exactly on a grid line of every grid size... (2 = 1*2 = 2*1)
     ("Z", 6.0, 1.0, 6.0, 1.0),  # a point on a grid line (6 is a multiple of 1, 2 and 3)
 ]
-BOUNDS = [(-4.0, -4.0, 4.0, 4.0), (0.0, 0.0, 8.0, 8.0)]
+# the third has x0 > y0 and x1 != y1 (added after seeded defect C20_5, a y/x mix-up invisible on square-origin bounds, was missed)
+BOUNDS = [(-4.0, -4.0, 4.0, 4.0), (0.0, 0.0, 8.0, 8.0), (1.0, -3.0, 7.0, 5.0)]
 GRIDS = [1, 2, 3]
-INTERVALS = [(-5.0, -3.5), (-3.0, -0.5), (-0.7, 0.0), (-0.7, 2.0), (-0.5, 0.5), (0.5, 1.5), (1.5, 3.0), (2.0, 8.5), (5.5, 9.0)]
+# the last interval covers every bounds entirely (added after seeded defect C20_6, a whole-plane shortcut in find(), was missed)
+INTERVALS = [(-5.0, -3.5), (-3.0, -0.5), (-0.7, 0.0), (-0.7, 2.0), (-0.5, 0.5), (0.5, 1.5), (1.5, 3.0), (2.0, 8.5), (5.5, 9.0), (-5.0, 9.0)]
 QUERIES = [(ax[0], ay[0], ax[1], ay[1]) for ax in INTERVALS for ay in INTERVALS]
 
 
@@ -231,7 +233,7 @@ def check_plane(bounds, grid, state, hist, st):
     for n, o in objs.items():
         if (o in pl) != (n in live):
             st.violation("C20/plane-contains", {**case, "obj": n}, n in live, o in pl, "in")
-    for q in QUERIES:
+    for q in QUERIES + [tuple(bounds)]:  # also the query that is exactly the plane
         if not proper(q, bounds):
             st.not_judged["query outside bounds"] += 1
             continue
